@@ -123,6 +123,8 @@ ReqOf(ev) ==
   (CASE ev.op = "Cert" -> ReqCertEv(ev)
      [] ev.op = "Csr" -> ReqCsrEv(ev)
      [] ev.op = "Crl" -> ReqCrlEv(ev)
+     [] ev.op = "CsrParse" -> ReqCsrParse(ev.args, ev.out, ev.obs)
+     [] ev.op = "CsrIssue" -> ReqCsrIssue(ev.args, ev.out, ev.obs)
      [] ev.op = "ImportCa" -> ReqImportEv(ev)
      [] ev.op = "Chain" -> ReqChain(ev.args, ev.out, ev.obs)
      [] ev.op = "Pem" -> (IF ev.out = "Ok" THEN ReqPem(ev.args, ev.obs) ELSE {<<"C14.pem_produced", FALSE>>})
